@@ -209,47 +209,61 @@ def ocaml_build():
         return True, "cached"
     for s in src:
         shutil.copy(s, OCAML_BUILD)
-    rc, out = sh(["ocamlfind", "ocamlopt", "-w", "-a", "-O3", "-unboxed-types", "-o", "driver", "model.mli", "model.ml", "driver.ml"],
+    rc, out = sh(["ocamlfind", "ocamlopt", "-package", "unix", "-linkpkg", "-w", "-a", "-o", "driver", "model.mli", "model.ml", "driver.ml"],
                  cwd=OCAML_BUILD, timeout=1200)
-    if rc != 0:
-        rc, out = sh(["ocamlfind", "ocamlopt", "-w", "-a", "-o", "driver", "model.mli", "model.ml", "driver.ml"],
-                     cwd=OCAML_BUILD, timeout=1200)
     if rc == 0:
         open(stamp, "w").write(digest)
     return rc == 0, out
 
 
 def model_run(lines, shards=None, timeout=3600):
-    """Feed command lines to the extracted model, return the answer lines (sharded over processes)."""
+    """Feed command lines to the extracted model, return the answer lines (sharded over processes).
+    The driver runs under an address-space limit; a case that exhausts it (unary nat fuel from a huge count field)
+    answers 'EXN Out_of_memory'; if the process dies the fatal case answers 'EXN died' and the shard restarts after it."""
     exe = os.path.join(OCAML_BUILD, "driver")
     if not lines:
         return []
-    shards = shards or min(NPROC, max(1, len(lines) // 200))
+    shards = shards or min(NPROC, max(1, len(lines) // 50))
     chunks = [lines[i::shards] for i in range(shards)]
-    procs = []
-    for ch in chunks:
-        p = subprocess.Popen(["bash", "-c", "ulimit -s unlimited 2>/dev/null; exec " + exe], stdin=subprocess.PIPE,
-                             stdout=subprocess.PIPE, text=True)
-        procs.append(p)
-    import threading
     outs = [None] * shards
+    import threading
 
-    def feed(i):
-        o, _ = procs[i].communicate("\n".join(chunks[i]) + "\n", timeout=timeout)
-        outs[i] = o.split("\n")
-        if outs[i] and outs[i][-1] == "":
-            outs[i].pop()
+    def work(i):
+        todo = chunks[i]
+        got = []
+        while len(got) < len(todo):
+            rest = todo[len(got):]
+            p = subprocess.Popen(["bash", "-c", "ulimit -s unlimited 2>/dev/null; ulimit -v 3000000; exec " + exe], stdin=subprocess.PIPE,
+                                 stdout=subprocess.PIPE, stderr=subprocess.DEVNULL, text=True)
+            try:
+                o, _ = p.communicate("\n".join(rest) + "\n", timeout=timeout)
+            except subprocess.TimeoutExpired:
+                p.kill()
+                o, _ = p.communicate()
+                ol = o.split("\n")
+                if ol and ol[-1] == "":
+                    ol.pop()
+                got.extend(ol[:len(rest)])
+                if len(got) < len(todo):
+                    got.append("EXN timeout")
+                continue
+            ol = o.split("\n")
+            if ol and ol[-1] == "":
+                ol.pop()
+            got.extend(ol[:len(rest)])
+            if len(got) < len(todo):
+                got.append("EXN died rc=%s" % p.returncode)
+        outs[i] = got
 
-    ths = [threading.Thread(target=feed, args=(i,)) for i in range(shards)]
+    ths = [threading.Thread(target=work, args=(i,)) for i in range(shards)]
     for t in ths:
         t.start()
     for t in ths:
         t.join()
     res = [None] * len(lines)
     for i in range(shards):
-        o = outs[i] or []
         for j, _ in enumerate(chunks[i]):
-            res[i + j * shards] = o[j] if j < len(o) else "EXN missing"
+            res[i + j * shards] = outs[i][j] if j < len(outs[i]) else "EXN missing"
     return res
 
 
